@@ -174,6 +174,8 @@ def field_lines(f, indent):
         out.append("%slet %s = %s" % (ind, f.name, expr_text(f.expr)))
     elif f.type[0] == "anon":
         out.append("%s%s [+%s]  bits:" % (ind, expr_text(f.start), expr_text(f.size)))
+        if f.byte_order:
+            out.append('%s  [byte_order: "%s"]' % (ind, f.byte_order))
         for g in f.type[1]:
             out.extend(field_lines(g, ind + "  "))
         return out
